@@ -476,4 +476,88 @@ def run(chk):
                                  {"emit_batcher::Sender": "Drop for Sender closes the channel: the first copy dropped stops the receiver while the others still send, "
                                                           "their items are discarded and a flush reports success at once",
                                   "emit_batcher::Receiver": "two receivers would take batches concurrently and both clear is_in_batch"})
+
+    def payload_len_is_bytes():
+        """EncodedPayload::len feeds content-length and the size-based request grouping: it is the number of *bytes* of either form (the cursor
+        that sends the body counts bytes).  A character or element count is shorter for any non-ASCII JSON, so the body is cut off."""
+        b = P.body("emit_otlp::data::EncodedPayload::len")
+        names = [c.callee.get("name") for c in b.calls(normal_only=True)]
+        bad = [n for n in names if n in ("chars", "count", "char_indices", "graphemes", "lines", "split", "encode_utf16")]
+        if bad:
+            return False, ("EncodedPayload::len counts with %s: content-length must be the body's byte length (a multi-byte character makes the "
+                           "declared length shorter than the body, the collector reads truncated JSON and rejects every retry)" % bad[0]), [], b.span
+        lens = [c for c in b.calls(normal_only=True) if c.callee.get("name") == "len"]
+        if len(lens) < 2:
+            return False, "EncodedPayload::len must return the byte length of each form (len() calls: %d)" % len(lens), [], b.span
+        return True, "", [c.loc for c in lens]
+    chk.ob("C12.R7:payload-length-in-bytes", "the payload length used for content-length and request grouping is a byte count for both encodings", payload_len_is_bytes)
+
+    def awaited_results_checked():
+        """In the OTLP client's async code the outcome of every awaited workspace future that yields a Result is inspected: `fut.await?`, a
+        match, or the value returned / passed on - never `fut.await;` (the gRPC status starts at 0 = OK and is only overwritten by a trailer, so
+        a response stream that fails before its trailers would count as acknowledged)."""
+        n, ev = 0, []
+        for b in P.bodies.values():
+            if b.crate != "emit_otlp" or "/client" not in b.file or "::tests::" in b.key:
+                continue
+            polls = [c for c in b.calls(normal_only=True) if c.callee.get("name") == "poll" and c.callee.get("trait") == "core::future::future::Future"]
+            for pc in polls:
+                fut = b.origin(pc.args[0], through_calls=("new_unchecked", "as_mut", "deref_mut", "get_unchecked_mut", "map_unchecked_mut"))
+                fut = mir.o_root(fut)
+                if not (fut[0] == "call" and fut[1].callee.get("name") == "into_future" and fut[1].args):
+                    continue
+                made = mir.o_root(b.origin(fut[1].args[0]))
+                if not (made[0] == "call" and (made[1].callee.get("path") or "").startswith("emit_otlp::")):
+                    continue
+                ty = b.local_ty(pc.dest["l"]) if pc.dest and "p" not in pc.dest else ""
+                if "Poll<core::result::Result<" not in ty and "Poll<Result<" not in ty:
+                    continue
+                n += 1
+                # simpler and sufficient: some Try::branch / discriminant switch / return in this body derives from this poll's payload
+                derived = False
+                for c2 in b.calls(normal_only=True):
+                    if c2.callee.get("name") in ("branch", "map_err", "map", "and_then", "unwrap_or", "unwrap_or_else", "is_ok", "is_err", "ok") and c2.args:
+                        r = mir.o_root(b.origin(c2.args[0]))
+                        if r[0] == "call" and r[1].bb == pc.bb:
+                            derived = True
+                for sbb, t2 in b.switches():
+                    so = b.switch_origin(sbb)
+                    if so[0] == "discr":
+                        r = so[1]
+                        d = 0
+                        while r[0] in ("field", "downcast", "ref", "deref", "copy") and d < 6:
+                            if r[0] == "downcast" and r[2] == "Ready":
+                                pass
+                            r = r[1]
+                            d += 1
+                        # the Poll discriminant itself does not count; a discriminant of the payload does
+                        if r[0] == "call" and r[1].bb == pc.bb and so[1][0] != "call":
+                            derived = True
+                leaves = [b.origin(0)]
+                for _ in range(40):
+                    if not leaves:
+                        break
+                    x = leaves.pop()
+                    if x[0] == "phi":
+                        leaves.extend(x[1])
+                        continue
+                    ro = mir.o_root(x)
+                    if ro[0] == "call" and ro[1].bb == pc.bb:
+                        derived = True
+                    elif ro[0] == "agg":
+                        leaves.extend(ro[2])
+                # passed on as an argument / stored
+                for c2 in b.calls(normal_only=True):
+                    for a in c2.args:
+                        r = b.origin(a)
+                        if r[0] in ("field", "downcast") and mir.o_root(r)[0] == "call" and mir.o_root(r)[1].bb == pc.bb and c2.callee.get("name") not in ("poll", "drop", "drop_in_place", "get_context"):
+                            derived = True
+                if not derived:
+                    return False, ("%s awaits %s at %s and drops its Result: a failure of that step is not propagated, so the request it belongs to counts "
+                                   "as acknowledged" % (b.key, made[1].callee.get("path"), made[1].loc)), [], made[1].loc
+                ev.append(made[1].loc)
+        if n < 4:
+            raise mir.AnchorMissing("awaited Result-yielding client futures (found %d)" % n)
+        return True, "", ["%d awaited results inspected" % n]
+    chk.ob("C12.R8:awaited-results-inspected", "no awaited client future's Result is dropped", awaited_results_checked)
     return chk
